@@ -5,9 +5,12 @@ package c11
 import (
 	"fmt"
 	"testing"
+	"time"
 
 	"github.com/wmnsk/go-pfcp/message"
 	"pgregory.net/rapid"
+
+	upfreport "github.com/free5gc/go-upf/internal/report"
 
 	"github.com/free5gc/go-upf/internal/verif/stack"
 	"github.com/free5gc/go-upf/internal/verif/vcore"
@@ -35,6 +38,9 @@ type Ev struct {
 
 type Case struct {
 	Evs []Ev `json:"evs"`
+	// Quiet lists URR ids whose removal yields no final report from the data plane
+	// (the no-op driver never returns one; gtp5g may answer without a report)
+	Quiet []uint32 `json:"quiet,omitempty"`
 }
 
 type inc struct {
@@ -56,8 +62,16 @@ type gsess struct {
 	pdr   map[uint32][]uint32
 }
 
-func gen(t *rapid.T) []Ev {
+func gen(t *rapid.T) Case {
 	var evs []Ev
+	quiet := map[uint32]bool{}
+	var quietList []uint32
+	for id := uint32(1); id <= 3; id++ {
+		if rapid.IntRange(0, 3).Draw(t, "quiet") == 0 {
+			quiet[id] = true
+			quietList = append(quietList, id)
+		}
+	}
 	var ss []*gsess
 	est := func() {
 		g := &gsess{alive: true, urr: map[uint32]bool{}, pdr: map[uint32][]uint32{}}
@@ -88,16 +102,41 @@ func gen(t *rapid.T) []Ev {
 	for i := 0; i < n; i++ {
 		si := rapid.IntRange(0, len(ss)-1).Draw(t, "sess")
 		g := ss[si]
-		k := rapid.SampledFrom([]string{"report", "report", "report", "perio", "mod", "mod", "mod", "del", "est"}).Draw(t, "kind")
+		k := rapid.SampledFrom([]string{"report", "report", "report", "perio", "mod", "mod", "mod", "del", "est", "recreate", "recreate"}).Draw(t, "kind")
 		if !g.alive && k != "est" {
 			continue
 		}
 		switch k {
+		case "recreate":
+			// remove a URR that exists, create it again, report for it: the re-created URR must start at 0
+			var have []uint32
+			for u := uint32(1); u <= 3; u++ {
+				if g.urr[u] {
+					have = append(have, u)
+				}
+			}
+			if len(have) == 0 {
+				continue
+			}
+			u := have[rapid.IntRange(0, len(have)-1).Draw(t, "which")]
+			evs = append(evs, Ev{Kind: "report", Sess: si, URRs: []uint32{u}, Trig: stack.TrigVOLTH},
+				Ev{Kind: "mod", Sess: si, Rules: []stack.RuleOp{{Verb: "remove", Kind: "URR", ID: u}}},
+				Ev{Kind: "mod", Sess: si, Rules: []stack.RuleOp{{Verb: "create", Kind: "URR", ID: u, Method: uint8(rapid.IntRange(0, 7).Draw(t, "method")), Trig: 0x0102}}},
+				Ev{Kind: "report", Sess: si, URRs: []uint32{u}, Trig: stack.TrigVOLTH})
 		case "report", "perio":
 			nr := rapid.IntRange(1, 3).Draw(t, "nrep")
 			var urrs []uint32
 			for j := 0; j < nr; j++ {
-				urrs = append(urrs, uint32(rapid.IntRange(1, 3).Draw(t, "urr")))
+				u := uint32(rapid.IntRange(1, 3).Draw(t, "urr"))
+				if quiet[u] && !g.urr[u] {
+					// a data plane does not report for a URR it has removed; go-upf only learns of the
+					// removal through the final report, which this URR's removal does not produce
+					continue
+				}
+				urrs = append(urrs, u)
+			}
+			if len(urrs) == 0 {
+				continue
 			}
 			trig := uint32(stack.TrigVOLTH)
 			if k == "perio" {
@@ -178,7 +217,7 @@ func gen(t *rapid.T) []Ev {
 			}
 		}
 	}
-	return evs
+	return Case{Evs: evs, Quiet: quietList}
 }
 
 func sortU(a []uint32) {
@@ -194,6 +233,16 @@ func sortU(a []uint32) {
 func run(c Case) (v *vcore.Violation, stt stats) {
 	d := stack.NewModelDriver()
 	d.UpdateReports = true
+	quiet := map[uint32]bool{}
+	for _, q := range c.Quiet {
+		quiet[q] = true
+	}
+	d.ReportFor = func(op string, seid uint64, urrid uint32) []upfreport.USAReport {
+		if op == "remove" && quiet[urrid] {
+			return nil
+		}
+		return []upfreport.USAReport{{URRID: urrid, StartTime: time.Unix(1700000000, 0), EndTime: time.Unix(1700000100, 0)}}
+	}
 	st, err := stack.New(stack.Opts{Driver: d, Nodes: 2})
 	if err != nil {
 		panic(fmt.Sprintf("infrastructure: %v", err))
@@ -380,7 +429,7 @@ func report(t vcore.Failer, c Case, v *vcore.Violation) {
 	}
 	key := v.Key
 	c.Evs = vcore.MinimizeSlice(c.Evs, func(evs []Ev) bool {
-		x, _ := run(Case{Evs: evs})
+		x, _ := run(Case{Evs: evs, Quiet: c.Quiet})
 		return x != nil && x.Key == key
 	}, 300)
 	if x, _ := run(c); x != nil {
@@ -404,8 +453,8 @@ func TestC11(t *testing.T) {
 	if explicit {
 		return
 	}
-	vcore.Check(t, vcore.N(400, 3000), func(rt *rapid.T) {
-		c := Case{Evs: gen(rt)}
+	vcore.Check(t, vcore.N(1200, 4000), func(rt *rapid.T) {
+		c := gen(rt)
 		v, s := run(c)
 		account(c, s)
 		report(rt, c, v)
